@@ -44,7 +44,18 @@ func (u *U) lift(t *smt.Term) *smt.Term {
 		v = as[0]
 	case smt.OFGrid:
 		v = c.UF("u.grid", bv64, c.SExt(as[0], 64), c.BVC(64, uint64(t.I)))
-	case smt.OFAdd, smt.OFSub, smt.OFMul, smt.OFDiv, smt.OFNeg, smt.OFAbs, smt.OFSqrt, smt.OFNextUp, smt.OFNextDown, smt.OFFromSInt, smt.OFFromUInt:
+	case smt.OFMul, smt.OFDiv:
+		// x*1 = 1*x = x/1 = x in IEEE arithmetic (up to the payload of a NaN)
+		one := func(a *smt.Term) bool { return a.IsConst() && a.U == 0x3FF0000000000000 }
+		switch {
+		case one(as[1]):
+			v = as[0]
+		case t.Op == smt.OFMul && one(as[0]):
+			v = as[1]
+		default:
+			v = c.UF("u."+t.Op.String(), bv64, widen(c, as)...)
+		}
+	case smt.OFAdd, smt.OFSub, smt.OFNeg, smt.OFAbs, smt.OFSqrt, smt.OFNextUp, smt.OFNextDown, smt.OFFromSInt, smt.OFFromUInt:
 		v = c.UF("u."+t.Op.String(), bv64, widen(c, as)...)
 	case smt.OFToSInt:
 		v = c.UF("u.tosint", smt.BV(t.Sort.W), as...)
